@@ -24,4 +24,7 @@ def cfg : Cfg :=
     stepClips := true }
 /-- the values `check_valid_eigenvector` stores in `self.failure`, in the order of its tests -/
 def validReasons : List String := ["eigenvector", "eigenvalue", "bounds"]
+/-- the finite-difference displacement of `rayleigh_ritz_function_gradient` (numerator, denominator); the rest
+    of that function is checked statement by statement against the transcription `rayleighCoded` -/
+def rayleighDisp : Nat × Nat := (1, 1000)
 end TopSearch.Gen.Hef
